@@ -464,6 +464,7 @@ func (e *Exec) resetPath() {
 	e.ufCount = 0
 	e.nativeState = map[string]interface{}{}
 	e.md5Calls = nil
+	e.noMerge = !e.cfg.Merge
 	e.pcSet = map[*Term]bool{}
 	e.fixedModel = Model{}
 	e.fixedBits = nil
@@ -660,6 +661,9 @@ func (e *Exec) symIntercept(name string, args []Value) (Value, bool) {
 		return e.floatArgs[i], true
 	case "symFmtFloatReset":
 		e.floatArgs = nil
+		return nil, true
+	case "symMerge":
+		e.noMerge = e.boolTerm(args[0]) != tc.True
 		return nil, true
 	case "symArrayMode":
 		e.arrayMode = e.boolTerm(args[0]) == tc.True
